@@ -307,10 +307,12 @@ fn live_case(seed: u64, ev: &Evidence) -> CaseResult {
     for i in 0..n_commits {
         let members = w.members();
         // members persist their state now and then: a past epoch then lives in the store, in the pending writes, or in both
+        let mut just_saved: Vec<usize> = vec![];
         for m in &members {
             if rng.below(3) == 0 {
                 w.save(*m).map_err(|e| Failure::new(format!("{P}|setup_save|{}", e.class()), e.text().to_string()))?;
                 ev.class("live_members_persisted_between_commits");
+                just_saved.push(*m);
             }
         }
         let committer = members[rng.below(members.len() as u64) as usize];
@@ -351,7 +353,47 @@ fn live_case(seed: u64, ev: &Evidence) -> CaseResult {
             spec.add.push(p);
         }
         spec.aad = rng.blob(8);
-        let info = match w.commit_round(committer, &spec)? {
+        // Error paths on the way into the new epoch must not leave wrong secrets behind: (a) the committer's first attempt to
+        // apply its commit meets a storage that fails once; (b) one receiver first sees the commit while it holds a stale
+        // value for one of the PSKs, refuses it, gets the right value and processes it again. Everything is recomputed below
+        // as if nothing had happened.
+        let fault_committer = just_saved.contains(&committer) && rng.below(2) == 0;
+        // (public handshake only: a refused PrivateMessage has spent its message key, the finding listed under C04)
+        let stale_receiver = (with_psks && !private && rng.below(2) == 0).then(|| members[rng.below(members.len() as u64) as usize]).filter(|m| *m != committer);
+        let stale_id = spec.external_psks.first().cloned();
+        let mut hook = |w: &mut World, st: Stage| -> CaseResult {
+            match st {
+                Stage::AfterBuild { committer } if fault_committer => {
+                    let party = &mut w.parties[committer];
+                    party.ctl.arm(0, -1);
+                    let r = guard(|| party.gm().apply_pending_commit().map(|_| ()));
+                    let fired = party.ctl.fired.load(std::sync::atomic::Ordering::SeqCst);
+                    party.ctl.reset();
+                    match r {
+                        Err(e) if e.is_panic() => return Err(panic_failure(P, "apply_pending_commit(storage fault)", &e)),
+                        Err(_) if fired > 0 => ev.class("live_committer_first_apply_met_a_storage_fault"),
+                        Err(e) => return Err(Failure::new(format!("{P}|setup_apply|{}", e.class()), e.text().to_string())),
+                        Ok(()) => return Err(Failure::new(format!("{P}|harness|faulted_apply_succeeded"), format!("fired {fired}"))),
+                    }
+                }
+                Stage::BeforeReceive { receiver, bytes } if Some(receiver) == stale_receiver => {
+                    if let Some(id) = &stale_id {
+                        let right = psk_value(id);
+                        w.parties[receiver].pstore.put(id, &[0x3c; 32]);
+                        let r = w.process(receiver, bytes);
+                        w.parties[receiver].pstore.put(id, &right);
+                        match r {
+                            Err(e) if e.is_panic() => return Err(panic_failure(P, "process_incoming_message(commit, stale PSK)", &e)),
+                            Err(_) => ev.class("live_receiver_first_refused_the_commit_with_a_stale_psk"),
+                            Ok(_) => return Err(Failure::new(format!("{P}|commit_accepted_with_a_wrong_psk_value"), format!("party {receiver}"))),
+                        }
+                    }
+                }
+                _ => {}
+            }
+            Ok(())
+        };
+        let info = match w.commit_round_with(committer, &spec, &mut hook)? {
             Ok(i) => i,
             Err(e) => return Err(Failure::new(format!("{P}|setup_commit|{}", e.class()), e.text().to_string())),
         };
@@ -468,7 +510,7 @@ pub fn run(ctx: &Ctx) -> ! {
          (ids, hashes, 0-3 extensions); PSK lists of 0-5 mixed external/resumption ids with random nonces; tree sizes 2^0..2^10, any leaf, generations 0..2000, both ratchets; \
          exporter label/context/length incl. 0, 255*Nh and 255*Nh+1; sender-data samples shorter and longer than Nh; tags and interim hashes. Plus live groups (two thirds with public handshake; with encrypted handshake the reference decrypts the commit itself): \
          membership tag, confirmed/interim transcript hash, confirmation tag and, for path-less commits, every secret of the new epoch recomputed from the previous epoch's init secret, incl. commits that inject 2-3 external PSKs in a generated (not id-sorted) order and the resumption PSK of the current or a retained past epoch, with members persisted at generated moments (so that past epochs live in the store, in the pending writes, or both). \
-         Non-trivial = derivation with a non-zero PSK secret / >= 1 PSK / generation > 0 or leaf > 0 / any export; distinct by input values.",
+         On the way into a new epoch the committer's first apply sometimes meets a storage that fails once and a receiver first refuses the commit over a stale PSK value (public handshake); the recomputation is the same. Non-trivial = derivation with a non-zero PSK secret / >= 1 PSK / generation > 0 or leaf > 0 / any export; distinct by input values.",
     );
     ev.assume("refmodel::keysched and refmodel::wire are correct; they are calibrated on the IETF interop vectors before every run");
     match rk::calibrate() {
